@@ -161,6 +161,7 @@ type (
 		Forall bool
 		Vars   []QVar
 		Body   Expr
+		Pat1   bool // `forallp`: give an explicit pattern even when there is a single bound variable
 	}
 	EIte struct{ C, T, E Expr }
 	ELet struct {
@@ -419,7 +420,7 @@ func (ps *parser) primary() (Expr, error) {
 		return nil, fmt.Errorf("unexpected %q at %d in %q", t.s, t.pos, ps.src)
 	case tIdent:
 		switch t.s {
-		case "forall", "exists":
+		case "forall", "exists", "forallp":
 			var vars []QVar
 			for {
 				n := ps.next()
@@ -444,7 +445,7 @@ func (ps *parser) primary() (Expr, error) {
 			if err != nil {
 				return nil, err
 			}
-			return &EQuant{t.s == "forall", vars, body}, nil
+			return &EQuant{Forall: t.s != "exists", Vars: vars, Body: body, Pat1: t.s == "forallp"}, nil
 		case "if":
 			c, err := ps.expr(0)
 			if err != nil {
